@@ -539,7 +539,8 @@ theorem iface_kind_rejected (v : IfaceVar) (hv : v ≠ .ptrIface) (name : String
           · simp [rej] at h1
           · cases v with
             | ptrIface => exact hv rfl
-            | value k => simp [rej] at h1
+            | value k hm => simp [rej] at h1
+            | nilValue => simp [rRuntime, rej] at h1
             | ptrTo k hm => simp [rej] at h1
 
 /-- interface.go:36 ff. — **an interface-method callback is accepted iff** it has exactly the method's parameters after the
@@ -628,6 +629,11 @@ theorem seqStep_rejected (tg : Target) (isM : Bool) (repl : Nat) (ms ms' : MS) (
     RejectedNoop ms.g ms'.g tg.id repl ∧ ms'.imp = ms.imp := by
   cases st with
   | again => simp [seqStep, pure, Except.pure] at h
+  | asFn f => simp [seqStep, pure, Except.pure] at h
+  | lookup name found =>
+    simp only [seqStep, Prod.mk.injEq] at h
+    obtain ⟨rfl, _⟩ := h
+    exact ⟨RejectedNoop.refl _ _ _, rfl⟩
   | apply cb =>
     simp only [seqStep] at h
     cases h1 : applyByFunc ms.g tg cb .none repl with
@@ -707,5 +713,95 @@ theorem follow_up_matches_count_rejected (s : Sig) (isM : Bool) (w : WS) (a r : 
 example : whenStep ⟨[⟨.int, 8, 25, false, 0⟩, ⟨.str, 16, 31, false, 0⟩], [], false, default⟩ false ⟨true, true, true, true⟩
     (.when_ (some [.val ⟨.int, 8, 25, false, 0⟩]) false) = (⟨true, true, true, true⟩, .error ⟨.whenCount, [.str]⟩) :=
   follow_up_when_count_rejected _ _ _ _ _ rfl (by decide)
+
+/-! ## F. Retries: a rejected call leaves nothing behind that would let the same mistake pass later -/
+
+/-- an unknown or empty method name is rejected **every time** it is looked up (cache.go:139/44 validate before caching),
+    and the mocker is exactly as before -/
+theorem lookup_unknown_always_rejected (tg : Target) (isM : Bool) (repl : Nat) (ms : MS) (name : String) :
+    ∃ e, seqStep tg isM repl ms (.lookup name false) = (ms, .error e) := by
+  by_cases hn : name = "" <;> simp [seqStep, lookupCheck, hn, rStr, rej]
+
+/-- an ill-formed `Apply` after a valid stub: rejected, and the mocker still holds the same `When` and the entry still
+    jumps to the same function — the earlier configuration keeps answering (mocker.go:508: `doApply` first, `m.when = nil` after) -/
+theorem bad_apply_keeps_configuration (tg : Target) (isM : Bool) (repl : Nat) (ms ms' : MS) (cb : V) (e : Rej) (pre : Beh)
+    (h : seqStep tg isM repl ms (.apply cb) = (ms', .error e)) :
+    ms'.when = ms.when ∧ ms'.imp = ms.imp ∧ behOf pre ms' = behOf pre ms := by
+  simp only [seqStep] at h
+  cases h1 : applyByFunc ms.g tg cb .none repl with
+  | mk g1 r =>
+    cases r with
+    | error e1 =>
+      simp only [h1, Prod.mk.injEq] at h
+      obtain ⟨rfl, _⟩ := h
+      exact ⟨rfl, rfl, rfl⟩
+    | ok u => simp [h1, pure, Except.pure] at h
+
+/-- interface mockers (iface.go:112-186): a rejected call never replaces the variable, never changes what the method
+    dispatches to nor the `As` function, and — when no `When` existed yet — leaves the mocker exactly as it was, so the
+    same ill-fitting stub is rejected again on every retry -/
+theorem ifaceSeqStep_rejected (m : Sig) (s s' : IS) (st : Step) (e : Rej) (h : ifaceSeqStep m s st = (s', .error e)) :
+    s'.set = s.set ∧ s'.imp = s.imp ∧ s'.fn = s.fn ∧ (s.when = none → s' = s) := by
+  cases st with
+  | again => simp [ifaceSeqStep, pure, Except.pure] at h
+  | asFn f => simp [ifaceSeqStep, pure, Except.pure] at h
+  | lookup name found =>
+    simp only [ifaceSeqStep, Prod.mk.injEq] at h
+    obtain ⟨rfl, _⟩ := h
+    exact ⟨rfl, rfl, rfl, fun _ => rfl⟩
+  | apply cb =>
+    simp only [ifaceSeqStep] at h
+    split at h
+    · simp only [Prod.mk.injEq] at h
+      obtain ⟨rfl, _⟩ := h
+      exact ⟨rfl, rfl, rfl, fun _ => rfl⟩
+    · simp [pure, Except.pure] at h
+  | ret _ | when_ _ _ | returns _ | andReturn _ | in_ _ | matchPairs _ =>
+    simp only [ifaceSeqStep] at h
+    cases hw : s.when with
+    | some w =>
+      simp only [hw] at h
+      have : s'.set = s.set ∧ s'.imp = s.imp ∧ s'.fn = s.fn := by
+        have := congrArg Prod.fst h; simp at this; subst this; exact ⟨rfl, rfl, rfl⟩
+      exact ⟨this.1, this.2.1, this.2.2, fun hn => by simp at hn⟩
+    | none =>
+      simp only [hw] at h
+      split at h
+      · simp only [Prod.mk.injEq] at h
+        obtain ⟨rfl, _⟩ := h
+        exact ⟨rfl, rfl, rfl, fun _ => rfl⟩
+      · split at h
+        · simp only [Prod.mk.injEq] at h
+          obtain ⟨rfl, _⟩ := h
+          exact ⟨rfl, rfl, rfl, fun _ => rfl⟩
+        · simp [pure, Except.pure] at h
+
+/-- hence retrying the same rejected first configuration of an interface method gives the same rejection -/
+theorem iface_retry_same (m : Sig) (s s' : IS) (st : Step) (e : Rej) (hw : s.when = none)
+    (h : ifaceSeqStep m s st = (s', .error e)) : ifaceSeqStep m s' st = (s', .error e) := by
+  have := (ifaceSeqStep_rejected m s s' st e h).2.2.2 hw
+  rw [this]; rw [this] at h; exact h
+
+/-- satisfiable: an `As` function with one parameter too many, `Return` rejected twice in a row -/
+example :
+    let i : Ty := ⟨.int, 8, 25, false, 0⟩
+    let c : Ty := ⟨.ptr, 8, idMockerICtx, false, 0⟩
+    let s0 : IS := ⟨false, none, .none, ⟨[c, i, i], [i], false, i⟩⟩
+    let r1 := ifaceSeqStep ⟨[i], [i], false, i⟩ s0 (.ret (some [.val i]))
+    r1.2 = .error ⟨.illegalParam, [.traceable, .illegalParam, .argsNotMatch 3 2]⟩ ∧
+    (ifaceSeqStep ⟨[i], [i], false, i⟩ r1.1 (.ret (some [.val i]))).2 = r1.2 := by
+  refine ⟨rfl, rfl⟩
+
+/-- interface.go:23 — a slice / array / map / chan of the interface type (anything that is not a pointer) handed to
+    `Interface` is rejected with the typed cause even though `Elem()` is the interface and the method name resolves -/
+theorem iface_non_pointer_container_rejected (k : Kind) (name : String) (m c : Sig) (first : Ty) (rest : List Ty)
+    (hn : name ≠ "") (hk : hasElem k = true) (hc : c.ins = first :: rest)
+    (hctx : first.kind = .ptr ∧ first.id = idMockerICtx) :
+    ifaceCall (.value k true) name true m (.apply (.fn c)) =
+      (.error ⟨.illegalParamType, [.traceable, .illegalParamType]⟩, false) ∧
+    walk [ErrT.traceable, .illegalParamType] = some .illegalParamType := by
+  have h0 : ifaceMethod (.value k true) name true = .ok () := by
+    simp [ifaceMethod, hn, hk, pure, Except.pure]
+  simp [ifaceCall, h0, applyIface, hc, hctx, rej, walk]
 
 end C13
